@@ -95,9 +95,10 @@ def rename_fa(A, mapping):
     if isinstance(A, DFA):
         return DFA({m(q) for q in A.Q}, set(A.Sigma), {(m(q), a): m(r) for (q, a), r in A.delta.items()}, m(A.q0),
                    {m(q) for q in A.F})
-    delta = defaultdict(set)
+    plain = not isinstance(A.delta, defaultdict)
+    delta = {} if plain else defaultdict(set)
     for (q, a), R in A.delta.items():
-        if R:
+        if R or plain:
             delta[m(q), a] = {m(r) for r in R}
     return NFA({m(q) for q in A.Q}, set(A.Sigma), delta, m(A.q0), {m(q) for q in A.F}, A.epsilon)
 
@@ -108,6 +109,8 @@ NAME_POOLS = [
     ["a", "b", "c", "d", "e", "f", "g", "h"],
     ["x9", "p", "A1", "zz", "k", "m0", "B", "w_"],
     ["7", "11", "3", "5", "0", "2", "13", "1"],
+    ["q1", "q10", "q", "s", "s2", "1", "11", "q11"],      # names that are substrings of each other
+    ["a", "b", "a,b", "c", "b,c", "a,b,c", "d", "c,d"],   # names whose printed state sets collide
 ]
 
 
